@@ -112,10 +112,11 @@ SCENARIOS = {"pool": _pool_scn, "future": _fut_scn, "future+pool": _c16_multi}
 
 
 def _fam_pool(focus):
-    def make():
+    def make(body=None):
         from . import poolcheck
 
-        return poolcheck.PoolScenario(focus)
+        a = (body or {}).get("scenario_args") or {}
+        return poolcheck.PoolScenario(focus, a.get("tier", "quick"))
 
     return make
 
@@ -172,7 +173,8 @@ def _c12():
             required_probes=["lifecycle_serve", "lifecycle_never-served", "lifecycle_shutdown-inflight", "lifecycle_handle-loop",
                              "server_plain", "server_pooled", "server_pooled-user", "family_unix", "family_tcp",
                              "two_methods_executing_at_once", "shutdown_with_request_in_flight", "invalid_body_sent",
-                             "client_died_mid_body", "client_aborted_connection", "shared_request_and_notification_pool"])
+                             "client_died_mid_body", "client_aborted_connection", "shared_request_and_notification_pool",
+                             "second_server_closed_while_first_serves"])
 
     return run
 
@@ -180,7 +182,7 @@ def _c12():
 REGISTRY["C12"] = {"budget": {"quick": 60, "thorough": 1200}, "run": _c12()}
 
 
-def _c12_scn(body):
+def _c12_scn(body=None):
     from . import syscheck
 
     a = (body or {}).get("scenario_args") or {}
@@ -188,7 +190,7 @@ def _c12_scn(body):
 
 
 SCENARIOS["system-c12"] = _c12_scn
-FAMILY["C12"] = lambda: _c12_scn(None)
+FAMILY["C12"] = _c12_scn
 
 
 def _sys2(prop, cls_name, scn_name, required, budget):
@@ -288,7 +290,7 @@ def _c18():
             assumptions=["one definition per header name inside one dictionary (two spellings of one name in the same dict have no 'most recent')",
                          "header values are latin-1 encodable", "sampling, not exhaustive"],
             real_components=REAL_CLI, stub_components=STUB_CLI,
-            required_probes=["block_exit_normal", "block_exit_exception", "base_exception_exit", "fault_refuse", "fault_reset", "fault_5xx-len", "fault_truncated",
+            required_probes=["block_exit_normal", "block_exit_exception", "base_exception_exit", "credentials_in_url", "fault_refuse", "fault_reset", "fault_5xx-len", "fault_truncated",
                              "user_agent_overridden", "nesting_3_or_more", "same_name_in_other_case", "protected_name_pushed", "notify", "batch"])
 
     return run
@@ -324,7 +326,7 @@ def _c17():
                          "framing, URL and scheme clauses are functions of the input; the simulator contributes the wire observation point, segmentation and the chunk knob"],
             real_components=REAL_CLI + ["jsonrpclib.SimpleJSONRPCServer do_POST / CGI handler - real code"], stub_components=STUB_CLI,
             required_probes=["mode_client", "mode_server", "mode_cgi", "mode_scheme", "backend_raw_utf8", "encoding_gzip", "encoding_chunked",
-                             "multibyte_response_beyond_first_read", "multibyte_request_with_small_read_chunk", "whitespace_only_read_block", "query_string",
+                             "multibyte_response_beyond_first_read", "multibyte_request_with_small_read_chunk", "whitespace_only_read_block", "earlier_exchange_cut_mid_body", "query_string",
                              "percent_escape_in_path", "family_unix", "short_reads"])
 
     return run
@@ -383,3 +385,8 @@ def _c02_scn(body=None):
 
 SCENARIOS["c02"] = _c02_scn
 FAMILY["C02"] = _c02_scn
+
+
+def make_scenario(check_id, tier="quick"):
+    """The scenario object a check uses (for history replays and the self-tests)."""
+    return FAMILY[check_id]({"scenario_args": {"tier": tier}})
